@@ -576,3 +576,118 @@ theorem ranked_rankR (rdefs : Defs) (h : OrderedR rdefs) :
       simpa [rankR, hsn, hpn] using j2 p hp
 
 end QExPy.U
+
+namespace QExPy.U
+
+theorem packRatio_spec (d : Units) (u : Units) (e0 e : Rat) (h : packRatio d u e0 = some e) :
+    (e0 ≠ 0 → e = e0) ∧
+    ∀ p ∈ u, expOf d p.1 ≠ 0 ∧ (p.2 / expOf d p.1 = e ∨ p.2 / expOf d p.1 = 0) := by
+  induction u generalizing e0 with
+  | nil =>
+    simp only [packRatio, Option.some.injEq] at h
+    exact ⟨fun _ => h.symm, fun p hp => by cases hp⟩
+  | cons q r ih =>
+    obtain ⟨name, ex⟩ := q
+    simp only [packRatio] at h
+    split at h
+    · cases h
+    · rename_i hpre
+      split at h
+      · cases h
+      · rename_i hcond
+        have hrec := ih _ h
+        refine ⟨fun he0 => ?_, fun p hp => ?_⟩
+        · have := hrec.1 (by simp [he0])
+          simpa [he0] using this
+        · rcases List.mem_cons.mp hp with hp | hp
+          · subst hp
+            refine ⟨hpre, ?_⟩
+            by_cases he0 : e0 = 0
+            · by_cases hz : ex / expOf d name = 0
+              · exact Or.inr hz
+              · left
+                have := hrec.1 (by simp [he0, hz])
+                simpa [he0] using this.symm
+            · left
+              have h1 : e0 = ex / expOf d name := by
+                by_contra hne
+                exact hcond ⟨he0, hne⟩
+              have := hrec.1 (by simp [he0])
+              simp only [he0, if_false] at this
+              rw [this, h1]
+          · exact hrec.2 p hp
+
+
+/-- a unit that mentions no defined name is its own dimension -/
+theorem dimU_base (rdefs : Defs) (h : OrderedR rdefs) (u : Units) (hu : WF u)
+    (hb : ∀ k ∈ u.map Prod.fst, lookupDef rdefs k = none) (t : Sym) :
+    dimU rdefs u t = expOf u t := by
+  obtain ⟨a, _⟩ := unfolds_dimSym rdefs h
+  induction u with
+  | nil => rfl
+  | cons p r ih =>
+    obtain ⟨k, e⟩ := p
+    have hr := WF_tail hu
+    have hk := a k (hb k (by simp)) t
+    show e * dimSym rdefs k t + dimU rdefs r t = _
+    rw [hk, ih hr (fun k' hk' => hb k' (List.mem_cons_of_mem _ hk')), expOf_cons]
+    by_cases hkt : k = t
+    · subst hkt
+      simp only [WF, List.map_cons, List.nodup_cons] at hu
+      rw [expOf_eq_zero_of_not_mem r k hu.1]
+      simp [Rat.mul_one, Rat.add_zero]
+    · simp [hkt, Rat.mul_zero, Rat.zero_add]
+
+
+end QExPy.U
+
+namespace QExPy.U
+
+theorem dimU_nil (u : Units) (hu : WF u) (s : Sym) : dimU [] u s = expOf u s := by
+  induction u with
+  | nil => rfl
+  | cons p r ih =>
+    obtain ⟨k, e⟩ := p
+    have hr := WF_tail hu
+    simp only [dimU, List.map_cons, sumRat, dimSym, expOf_cons] at *
+    rw [ih hr]
+    by_cases hks : k = s
+    · subst hks
+      simp only [WF, List.map_cons, List.nodup_cons] at hu
+      rw [expOf_eq_zero_of_not_mem r k hu.1]
+      simp [Rat.mul_one, Rat.add_zero]
+    · simp [hks, Rat.mul_zero, Rat.zero_add]
+
+theorem unitOf_const_flag (t : UTree) (r : Units × Bool × Nat) (h : unitOf [] t = some r) :
+    r.2.1 = isConstT t := by
+  cases t with
+  | leaf u => simp [unitOf] at h; subst h; rfl
+  | const => simp [unitOf] at h; subst h; rfl
+  | powc a k =>
+    simp only [unitOf] at h
+    split at h
+    · simp at h; subst h; rfl
+    · cases h
+  | un op a =>
+    simp only [unitOf] at h
+    split at h
+    · simp only [guarded] at h
+      split at h
+      · split at h
+        · simp at h; subst h; rfl
+        · cases h
+      · simp at h; subst h; rfl
+    · cases h
+  | bin op a b =>
+    simp only [unitOf] at h
+    split at h
+    · simp only [guarded] at h
+      split at h
+      · split at h
+        · simp at h; subst h; rfl
+        · cases h
+      · simp at h; subst h; rfl
+    · cases h
+
+
+end QExPy.U
